@@ -1,11 +1,13 @@
 """C15 — user tracking mirrors the set of reasons: correspondence K_C15 + monitor (DESIGN.md, C15).
 
-The REAL `UserManager` + `UserTrackingManager` run on a virtual-time loop (`vlib.simloop`) against a stub
-`Network` whose two coroutines used by the tracking code (`send_server_messages`, `wait_for_server_message`)
-park on gates the schedule releases: every AddUser/RemoveUser attempt is observed from the real code path,
-and the schedule decides per attempt: send ok / send failure / exists / not-exists / error / silence.
+The REAL `UserManager` + `UserTrackingManager` — and, wherever transfer-manager code takes part, a REAL
+`TransferManager` built through its own `__init__` on the same event bus and the real user manager — run on a
+virtual-time loop (`vlib.simloop`) against a stub `Network` whose two coroutines used by the tracking code
+(`send_server_messages`, `wait_for_server_message`) park on gates the schedule releases: every
+AddUser/RemoveUser attempt is observed from the real code path, and the schedule decides per attempt:
+send ok / send failure / exists / not-exists / error / silence.
 
-Case = list of ops
+Case = {'ops': [...], optional 'auto': true, 'friends0': [u...], 'offline': 'drop'|'raise'}.  Ops:
     ['track'|'untrack', u, flags, m]      m: '.' let the loop settle afterwards
                                              '!' yield to the loop exactly once (the next op lands one loop
                                                  iteration later: e.g. between "worker returned" and "its
@@ -14,19 +16,45 @@ Case = list of ops
     ['gate', u, send_outcome, resp_outcome, m]   release whatever network call u's worker is parked in
                                              (resp_outcome 'silence' = let 10 s pass instead)
     ['adv', seconds]                      virtual time passes
-    ['tm', unfinished, finished, m]       one cycle of the REAL `TransferManager.manage_user_tracking`
-                                          (transfer/manager.py:497-515) over transfers of the listed users; its
-                                          track/untrack(TRANSFER) calls go through the harness back-to-back
-    ['close']                             ConnectionStateChangedEvent(ServerConnection, CLOSED)
+    ['close']                             ConnectionStateChangedEvent(ServerConnection, CLOSED), then (what the
+                                          client's own CLOSED listener does) SessionDestroyedEvent when a session exists
+  the owners of the reasons (a case that uses any of them runs with the real TransferManager):
+    ['login']                             SessionInitializedEvent (the user manager tracks its own name and the
+                                          friends list, the transfer manager requests a cycle)
+    ['friend', u, 0|1]                    name removed from / added to `settings.users.friends`; what the user management
+                                          job does when it notices (FriendListChangedEvent) happens with it
+    ['tadd', u, kind, m]                  a transfer of user u: 'q' queued download (`download()`), 'p' paused download,
+                                          'u' queued upload; transfers are numbered 0, 1, … in creation order
+    ['tfin', k, how, m]                   transfer k reaches a final state: `abort()` / `state.fail()`
+    ['tque', k, m]                        finished transfer k is queued again (`queue()`)
+    ['trm', k, m]                         `remove()`
+    ['cycle', m]                          one `TransferManager.manage_user_tracking()` (scripted cases only)
+    ['tm', unfinished, finished, m]       (older replay files) = the transfers are replaced by these, then one cycle
+  free-running cases ('auto': the management tasks of both managers are started and decide themselves when a cycle
+  runs; the stub network drops / refuses what is sent while no server connection exists; monitor only, no model):
+    ['quiesce']                           answer everything "exists", let retries come due, until nothing moves
+    ['restart']                           close, `stop()` of both managers, `start()` again (client.stop()/start())
 Every op first moves the virtual clock by one tick (1/1024 s): two timers of one user never fall due at the
 same instant, so the order in which asyncio fires them is not left to heap tie-breaking.
 After the scripted ops every parked call is released (send ok / exists) until the system is quiescent.
+
+Reference of the monitor (independent of the Lean model AND of which calls the owners really make): the fold of
+ * the application's own calls (made by the harness), and
+ * what the owner of a reason can see at the instant it looks: at a cycle TRANSFER is requested for a user with an
+   unfinished transfer and withdrawn for a user whose transfers are all finished, `remove()` of a user's last transfer
+   withdraws it, a login requests FRIEND for every name in the friends list, a friends-list change in a session
+   requests / withdraws it.
+An owner that makes fewer (or more) calls with the same effect — e.g. does not repeat a request it knows to be
+standing — is indistinguishable; one that forgets a standing reason after a session loss is not.
 """
 from __future__ import annotations
 
 import asyncio
 import json
+import os
 import random
+import sys
+import traceback
 
 from vlib import common, simloop
 from vlib.common import KResult, Violation, Disagreement, Property
@@ -34,24 +62,77 @@ from translate import track_constants
 
 TICK = 1.0 / 1024
 NAMES = ['u0', 'u1']
+ME = 'me'
 # the property's documented delays (DESIGN.md C15 reading) — deliberately NOT read from the code
 DELAY = {'sendfail': 10, 'timeout': 10, 'error': 10, 'notexists': 600}
 STATE_CH = {'untracked': 'U', 'tracked': 'T', 'retry_pending': 'P'}
+F_REQ, F_TR, F_FR = 1, 2, 4
+WORLD_OPS = ('login', 'friend', 'tadd', 'tfin', 'tque', 'trm', 'cycle', 'tm', 'quiesce', 'restart')
+_VERIF_ROOT = os.path.dirname(os.path.dirname(os.path.abspath(__file__)))
+
+
+# ------------------------------------------------------------------------------------------------
+# harness errors are infrastructure (exit 2), never a verdict about the code
+# ------------------------------------------------------------------------------------------------
+
+class HarnessGap(BaseException):
+    """The real code asked a stand-in of this harness for something it does not provide. BaseException: the
+    library's `except Exception` arms cannot swallow it; recorded at raise time in case a task keeps it."""
+
+
+_GAPS: list[str] = []
+
+
+class _StandIn:
+    def __getattr__(self, name):
+        if name.startswith('__') and name.endswith('__'):
+            raise AttributeError(name)            # protocol probes (copy, inspect, weakref …)
+        msg = f'the code under test used `{name}` of the stand-in {type(self).__name__}, which it does not provide'
+        _GAPS.append(msg)
+        raise HarnessGap(msg)
+
+
+def _raised_in_harness(exc: BaseException) -> bool:
+    """the innermost frame of the traceback is harness code (props/, vlib/): e.g. a public method of the code under
+    test no longer accepts the arguments the harness passes"""
+    tb = traceback.extract_tb(exc.__traceback__)
+    if not tb:
+        return False
+    fn = os.path.abspath(tb[-1].filename)
+    # simloop raises when the code under test does not quiesce / spins: that is about the code, not the harness
+    return fn.startswith(_VERIF_ROOT + os.sep) and os.path.basename(fn) != 'simloop.py'
 
 
 # ------------------------------------------------------------------------------------------------
 # running the real code
 # ------------------------------------------------------------------------------------------------
 
+def _is_world(case: dict) -> bool:
+    return bool(case.get('auto')) or any(op[0] in WORLD_OPS for op in case['ops'])
+
+
 class _Run:
-    def __init__(self, loop):
+    def __init__(self, loop, case: dict):
         from aioslsk.events import EventBus, UserTrackingStateChangedEvent
         from aioslsk.settings import Settings
         from aioslsk.user.manager import UserManager
         self.loop = loop
+        self.auto = bool(case.get('auto'))
+        self.offline_mode = case.get('offline', 'drop')
+        self.world = _is_world(case)
+        self.settings = Settings(credentials={'username': ME, 'password': 'pw'})
+        for u in case.get('friends0', []):
+            self.settings.users.friends.add(NAMES[u])
         self.bus = EventBus()
         self.net = _StubNet(self)
-        self.um = UserManager(Settings(credentials={'username': 'me', 'password': 'pw'}), self.bus, self.net)
+        self.um = UserManager(self.settings, self.bus, self.net)
+        self.mgr = None
+        if self.world:
+            # the transfer manager as the client builds it: real __init__, real user manager, same bus (registered after
+            # the user manager, as in SoulSeekClient.__init__); shares / network are stand-ins, the cache is the null cache
+            from aioslsk.transfer.manager import TransferManager
+            self.shares = _StubShares()
+            self.mgr = TransferManager(self.settings, self.bus, self.um, self.shares, self.net)
         self.gates: dict[str, list] = {}
         self._listener = self._on_state_event          # EventBus holds listeners weakly
         self.bus.register(UserTrackingStateChangedEvent, self._listener)
@@ -61,9 +142,23 @@ class _Run:
         self.obs: list[str] = []
         self.checkpoints: list[dict] = []
         self.problems: list[tuple[str, str]] = []      # (signature, what) found while running
+        # the world around the tracking manager
+        self.session = None
+        self.online = False
+        self.xfers: list = []                          # transfer number -> Transfer | None (removed)
+        self.tr_clean = False                          # a cycle ran after the last change of the transfers / close
+        self.app_bits = 0                              # flag bits the application itself has used in a call
+        self.lost_sessions = 0
+        self.watch: set = set()                        # (auto) names the server was asked to watch in this connection
+        self.dead_wait: set = set()                    # (auto) names whose AddUser never reached a server
+        self._truth_prev = {n: False for n in NAMES}
+        for u in case.get('friends0', []):             # the model starts from an empty friends list
+            self.lines.append(f'friend {u} 1')
+            self.obs.append(self.observe())
 
     def _new_epoch(self):
-        return {'calls': {}, 'attempts': {}, 'outcomes': {}, 'events': {}, 'log': {}}
+        return {'calls': {}, 'attempts': {}, 'outcomes': {}, 'events': {}, 'log': {},
+                'ups': {n: 0 for n in NAMES}, 'downs': {n: 0 for n in NAMES}}
 
     def now(self) -> int:
         return round(self.loop.time() / TICK)
@@ -80,6 +175,11 @@ class _Run:
         self.ep['outcomes'].setdefault(user, []).append((self.now(), kind))
         self.ep['log'].setdefault(user, []).append((self.now(), kind))
 
+    def ref_call(self, name: str, add: bool, flag: int):
+        """a request the reference expects (an application call made now, or what an owner can see now)"""
+        if name in NAMES:
+            self.ep['calls'].setdefault(name, []).append((self.now(), add, flag))
+
     async def park(self, user: str, kind: str):
         fut = self.loop.create_future()
         g = (kind, fut)
@@ -88,6 +188,39 @@ class _Run:
             return await fut
         finally:
             self.gates[user].remove(g)
+
+    # -- what the owners of the reasons can see -------------------------------------------------------
+    def has_unfinished(self, name: str) -> bool:
+        return self.mgr is not None and any(t.username == name and not t.is_finalized() for t in self.mgr.transfers)
+
+    def has_finished(self, name: str) -> bool:
+        return self.mgr is not None and any(t.username == name and t.is_finalized() for t in self.mgr.transfers)
+
+    def is_friend(self, name: str) -> bool:
+        return name in self.settings.users.friends
+
+    def standing(self, name: str) -> int:
+        r = 0
+        for _t, add, f in self.ep['calls'].get(name, []):
+            r = (r | f) if add else (r & ~f)
+        return r
+
+    def truth(self) -> dict:
+        return {n: {'req': bool(self.standing(n) & F_REQ), 'unf': self.has_unfinished(n), 'fr': self.is_friend(n)}
+                for n in NAMES}
+
+    def sample_truth(self):
+        """count the empty <-> non-empty edges of the observable reasons (bounds the requests of a free-running case)"""
+        for n, t in self.truth().items():
+            cur = t['req'] or t['unf'] or (t['fr'] and self.session is not None)
+            if cur and not self._truth_prev[n]:
+                self.ep['ups'][n] += 1
+            elif self._truth_prev[n] and not cur:
+                self.ep['downs'][n] += 1
+            self._truth_prev[n] = cur
+
+    async def on_transfer_state_changed(self, transfer, old, new):      # TransferStateListener of every transfer
+        self.sample_truth()
 
     # -- observation -----------------------------------------------------------------------------
     def observe_user(self, name: str) -> str:
@@ -101,10 +234,10 @@ class _Run:
     def observe(self) -> str:
         return ' | '.join(self.observe_user(n) for n in NAMES)
 
-    def checkpoint(self, settled: bool, after_close: bool = False):
+    def checkpoint(self, settled: bool, after_close: bool = False, quiesced: bool = False):
         self.checkpoints.append({
             'op': len(self.lines) - 1, 'epoch': len(self.epochs), 'now': self.now(), 'settled': settled,
-            'after_close': after_close,
+            'after_close': after_close, 'quiesced': quiesced,
             'users': {n: {'flags': self.um.get_tracking_flags(n).value,
                           'state': STATE_CH.get(self.um.get_tracking_state(n).value, '?'),
                           'gates': ''.join(k for k, _ in self.gates.get(n, []))} for n in NAMES},
@@ -113,6 +246,9 @@ class _Run:
             'noutcomes': {n: len(self.ep['outcomes'].get(n, [])) for n in NAMES},
             'stray': sorted(k for k in set(self.gates) | set(self.ep['attempts']) if k not in NAMES
                             and (self.gates.get(k) or self.ep['attempts'].get(k))),
+            'truth': self.truth(), 'session': self.session is not None, 'online': self.online,
+            'tr_clean': self.tr_clean, 'app_bits': self.app_bits, 'watch': sorted(self.watch),
+            'lost_sessions': self.lost_sessions,
         })
 
     # -- ops -------------------------------------------------------------------------------------
@@ -121,6 +257,9 @@ class _Run:
             await simloop.settle()
         elif m == '!':
             await asyncio.sleep(0)
+
+    def transfer(self, k):
+        return self.xfers[k] if isinstance(k, int) and 0 <= k < len(self.xfers) else None
 
     async def do(self, op: list):
         from aioslsk.user.model import TrackingFlag
@@ -131,7 +270,8 @@ class _Run:
             _, u, f, m = op
             name = NAMES[u]
             self.lines.append(f'{kind} {u} {f} {m}')
-            self.ep['calls'].setdefault(name, []).append((self.now(), kind == 'track', f))
+            self.ref_call(name, kind == 'track', f)
+            self.app_bits |= f
             if kind == 'track':
                 await self.um.track_user(name, TrackingFlag(f))
             else:
@@ -144,7 +284,11 @@ class _Run:
                 u = next((NAMES.index(n) for n in order if self.gates.get(n)), 0)
             name = NAMES[u]
             gs = self.gates.get(name, [])
-            if gs and gs[0][0] == 'W' and ro == 'silence':
+            if gs and gs[0][0] == 'w':                    # (auto) the AddUser never reached a server: nobody answers
+                self.lines.append('adv 10')
+                await simloop.advance(10)
+                m = '.'
+            elif gs and gs[0][0] == 'W' and ro == 'silence':
                 self.lines.append('adv 10')
                 await simloop.advance(10)
                 m = '.'
@@ -158,6 +302,8 @@ class _Run:
                 if gs:
                     if gs[0][0] == 'A' and so == 'fail':
                         self.outcome(name, 'sendfail')
+                    if so == 'ok':
+                        (self.watch.add if gs[0][0] == 'A' else self.watch.discard)(name)
                     gs[0][1].set_result(so == 'ok')
                 else:
                     pre = 'refused '
@@ -166,78 +312,180 @@ class _Run:
             self.lines.append(f'adv {op[1]}')
             await simloop.advance(op[1])
             m = '.'
+        elif kind == 'close':
+            await self.close()
+            return
+        elif kind == 'login':
+            from aioslsk.events import SessionInitializedEvent
+            from aioslsk.session import Session
+            self.lines.append('login')
+            self.online = True
+            self.session = Session(user=self.um.get_user_object(ME), ip_address='1.2.3.4', greeting='',
+                                   client_version=157, minor_version=100)
+            for n in NAMES:
+                if self.is_friend(n):
+                    self.ref_call(n, True, F_FR)
+            await self.bus.emit(SessionInitializedEvent(self.session, raw_message=None))
+            m = '.'
+            await self.after(m)
+        elif kind == 'friend':
+            from aioslsk.events import FriendListChangedEvent
+            _, u, b = op
+            name = NAMES[u]
+            self.lines.append(f'friend {u} {1 if b else 0}')
+            changed = bool(b) != self.is_friend(name)
+            (self.settings.users.friends.add if b else self.settings.users.friends.discard)(name)
+            if changed and self.session is not None:
+                self.ref_call(name, bool(b), F_FR)
+            if self.auto:
+                await simloop.advance(1.0)                # the user management job (interval 1 s) notices the change
+            elif changed:
+                # what `UserManager._management_job` emits when it notices the change (user/manager.py:258-290)
+                await self.bus.emit(FriendListChangedEvent(added={name} if b else set(), removed=set() if b else {name}))
+            m = '.'
+            await self.after(m)
+        elif kind == 'tadd':
+            from aioslsk.transfer.model import Transfer, TransferDirection
+            _, u, how, m = op
+            name = NAMES[u]
+            self.lines.append(f'tadd {u} {m}')
+            k = len(self.xfers)
+            if how == 'u':
+                t = await self.mgr.add(Transfer(name, f'c\\{k}.mp3', TransferDirection.UPLOAD))
+                await t.state.queue()
+            else:
+                t = await self.mgr.download(name, f'@@a\\{k}.mp3', paused=(how == 'p'))
+            t.state_listeners.append(self)
+            self.xfers.append(t)
+            self.tr_clean = False
+            await self.after(m)
+        elif kind in ('tfin', 'tque', 'trm'):
+            k, m = op[1], op[-1]
+            self.lines.append(f'{kind} {k} {m}')
+            t = self.transfer(k)
+            if t is None or (kind == 'tfin' and t.is_finalized()) or (kind == 'tque' and not t.is_finalized()):
+                pre = 'refused '
+            elif kind == 'tfin':
+                if op[2] == 'fail':
+                    await t.state.fail(reason='scripted')
+                else:
+                    await self.mgr.abort(t)
+                self.tr_clean = False
+            elif kind == 'tque':
+                await self.mgr.queue(t)
+                self.tr_clean = False
+            else:
+                await self.mgr.remove(t)
+                self.xfers[k] = None
+                self.tr_clean = False
+                if not any(x.username == t.username for x in self.mgr.transfers):
+                    self.ref_call(t.username, False, F_TR)       # nobody else can withdraw the reason of this user
+            await self.after(m)
+        elif kind == 'cycle':
+            m = op[1]
+            if self.auto:
+                raise ValueError('`cycle` in a free-running case')
+            self.lines.append(f'cycle {m}')
+            for n in NAMES:                                      # what the owner can see at this instant
+                if self.has_unfinished(n):
+                    self.ref_call(n, True, F_TR)
+                elif self.has_finished(n):
+                    self.ref_call(n, False, F_TR)
+            await self.mgr.manage_user_tracking()
+            self.tr_clean = True
+            await self.after(m)
         elif kind == 'tm':
-            await self.transfer_cycle(op[1], op[2])
+            # older replay files: "one cycle over exactly these transfers"
+            for k, t in enumerate(self.xfers):
+                if t is not None:
+                    await self.do(['trm', k, '+'])
+            for u in op[1]:
+                await self.do(['tadd', u, 'p', '+'])
+            for u in op[2]:
+                await self.do(['tadd', u, 'p', '+'])
+                await self.do(['tfin', len(self.xfers) - 1, 'abort', '+'])
+            await self.do(['cycle', '+'])
             if op[3] == '.':
                 await self.do(['adv', 0])
             return
-        elif kind == 'close':
-            from aioslsk.events import ConnectionStateChangedEvent
-            from aioslsk.network.connection import ConnectionState, ServerConnection
-            self.lines.append('close')
-            conn = ServerConnection('1.1.1.1', 2242, self.net)
-            t = asyncio.ensure_future(self.bus.emit(ConnectionStateChangedEvent(conn, ConnectionState.CLOSED)))
+        elif kind == 'quiesce':
+            await self.quiesce()
+            return
+        elif kind == 'restart':
+            await self.close()
+            tasks = await self.mgr.stop()
+            tasks += await self.um.stop()
+            await asyncio.gather(*tasks, return_exceptions=True)
+            await self.um.start()
+            await self.mgr.start()
             await simloop.settle()
-            if not t.done():
-                self.problems.append(('C15-close-hangs',
-                                      'handling of the server CLOSED event never completes (a tracking task '
-                                      'survived its cancellation)'))
-                t.cancel()
-                await simloop.settle()
-            # the epoch ends here: what is observed afterwards belongs to a fresh history
-            self.checkpoint(True, after_close=True)
-            self.epochs.append(self.ep)
-            self.ep = self._new_epoch()
-            self.obs.append(pre + self.observe())
             return
         else:
             raise ValueError(f'unknown op {op!r}')
+        self.sample_truth()
         self.obs.append(pre + self.observe())
         self.checkpoint(m == '.')
 
-    async def transfer_cycle(self, unfinished: list, finished: list):
-        """Run the real TransferManager.manage_user_tracking on a stand-in object holding real Transfer
-        objects; the calls it makes reach the real UserManager through `do` (one tick each, no yield)."""
-        from aioslsk.transfer.manager import TransferManager
-        from aioslsk.transfer.model import Transfer, TransferDirection
-        from aioslsk.transfer.state import CompleteState
-        from aioslsk.user.model import TrackingFlag
-        run = self
-        made: list = []
+    async def close(self):
+        from aioslsk.events import ConnectionStateChangedEvent, SessionDestroyedEvent
+        from aioslsk.network.connection import ConnectionState, ServerConnection
+        self.lines.append('close')
+        conn = ServerConnection('1.1.1.1', 2242, self.net)
+        self.online = False
+        self.watch.clear()
 
-        class _UM:
-            async def track_user(self, username, flag=TrackingFlag.REQUESTED):
-                made.append(('track', username, flag.value))
-                if username in NAMES:
-                    await run.do(['track', NAMES.index(username), flag.value, '+'])
+        async def closed():
+            await self.bus.emit(ConnectionStateChangedEvent(conn, ConnectionState.CLOSED))
+            if self.session is not None:                 # client.py:376-382, the last CLOSED listener
+                session, self.session = self.session, None
+                self.lost_sessions += 1
+                await self.bus.emit(SessionDestroyedEvent(session))
 
-            async def untrack_user(self, username, flag=TrackingFlag.REQUESTED):
-                made.append(('untrack', username, flag.value))
-                if username in NAMES:
-                    await run.do(['untrack', NAMES.index(username), flag.value, '+'])
+        t = asyncio.ensure_future(closed())
+        await simloop.settle()
+        if not t.done():
+            self.problems.append(('C15-close-hangs',
+                                  'handling of the server CLOSED event never completes (a tracking task '
+                                  'survived its cancellation)'))
+            t.cancel()
+            await simloop.settle()
+            self.session = None
+        self.tr_clean = False
+        # the epoch ends here: what is observed afterwards belongs to a fresh history
+        self.checkpoint(True, after_close=True)
+        self.epochs.append(self.ep)
+        self.ep = self._new_epoch()
+        self._truth_prev = {n: False for n in NAMES}
+        self.sample_truth()
+        self.obs.append(self.observe())
 
-        class _TM:
-            get_unfinished_transfers = TransferManager.get_unfinished_transfers
-            get_finished_transfers = TransferManager.get_finished_transfers
-            manage_user_tracking = TransferManager.manage_user_tracking
-
-        tm = _TM()
-        tm._user_manager = _UM()
-        tm._transfers = []
-        for i, u in enumerate(unfinished):
-            tm._transfers.append(Transfer(NAMES[u], f'a\\{i}.mp3', TransferDirection.DOWNLOAD))
-        for i, u in enumerate(finished):
-            t = Transfer(NAMES[u], f'b\\{i}.mp3', TransferDirection.UPLOAD)
-            t.state = CompleteState(t)
-            tm._transfers.append(t)
-        await tm.manage_user_tracking()
-        tflag = TrackingFlag.TRANSFER.value
-        want = sorted([('track', NAMES[u], tflag) for u in set(unfinished)]
-                      + [('untrack', NAMES[u], tflag) for u in set(finished) - set(unfinished)])
-        if sorted(made) != want:
-            self.problems.append(('C15-transfer-reason-wrong',
-                                  f'transfer manager cycle with unfinished={unfinished} finished={finished} made the '
-                                  f'calls {sorted(made)}, expected {want}'))
+    async def quiesce(self):
+        """(free-running cases) everything parked is answered "exists", pending retries come due, both management
+        jobs get their turns — until nothing moves; then the observable reasons are compared (checkpoint)."""
+        settled = False
+        waited_short = False
+        for _ in range(24):
+            await simloop.advance(2.0)
+            parked = [n for n in NAMES if self.gates.get(n) and self.gates[n][0][0] in 'ARW']
+            for n in parked:
+                await self.do(['gate', NAMES.index(n), 'ok', 'exists', '.'])
+            if parked:
+                continue
+            if not self.online:
+                settled = True           # nobody answers: retries go on for as long as the connection is down
+                break
+            waiting = [n for n in NAMES if self.gates.get(n) or self.um.get_tracking_state(n).value == 'retry_pending']
+            if not waiting:
+                settled = True
+                break
+            # a response time-out or a retry is pending: the short documented delay first, then the long one
+            await simloop.advance(min(DELAY.values()) + 1 if not waited_short else max(DELAY.values()) + 1)
+            waited_short = not waited_short
+        if not settled:
+            self.problems.append(('C15-does-not-settle', 'tracking keeps issuing network calls although every '
+                                  'attempt is answered "exists"'))
+        self.sample_truth()
+        self.checkpoint(True, quiesced=settled)
 
     async def drain(self):
         await self.do(['adv', 0])          # let whatever the last op left runnable run first
@@ -252,8 +500,29 @@ class _Run:
                               'attempt is answered "exists"'))
 
 
-class _StubNet:
-    """Stands in for `Network`: only what the user managers call."""
+class _StubShares(_StandIn):
+    """Stands in for `SharesManager`: every requested file exists (what an upload attempt asks before it talks to the
+    peer); downloads go nowhere."""
+
+    async def get_shared_item(self, remote_path, username=None):
+        from vlib import xferrig
+        return xferrig._Item(xferrig.shared_file())
+
+    async def find_shared_item(self, remote_path, username=None):
+        return await self.get_shared_item(remote_path, username)
+
+    def find_shared_item_cache(self, remote_path, username=None):
+        from vlib import xferrig
+        return xferrig._Item(xferrig.shared_file())
+
+    async def get_filesize(self, item):
+        from vlib import xferrig
+        return xferrig.FILE_SIZE
+
+
+class _StubNet(_StandIn):
+    """Stands in for `Network`: the two coroutines the tracking code awaits, and the peer side as far as the transfer
+    manager gets without a peer: a download is queued remotely at once, every other peer message finds no peer."""
 
     def __init__(self, run: _Run):
         self.run = run
@@ -261,6 +530,7 @@ class _StubNet:
     async def send_server_messages(self, *messages, raise_on_error: bool = True):
         from aioslsk.protocol.messages import AddUser, RemoveUser
         from aioslsk.exceptions import ConnectionWriteError
+        run = self.run
         for msg in messages:
             if isinstance(msg, AddUser.Request):
                 kind = 'A'
@@ -268,8 +538,21 @@ class _StubNet:
                 kind = 'R'
             else:
                 continue
-            self.run.attempt(msg.username, kind)
-            ok = await self.run.park(msg.username, kind)
+            if msg.username == ME:
+                continue                      # the own name: answered at once, not part of the schedule
+            if run.auto and not run.online:
+                # no server connection: `Connection.send_message` drops the message (closing / closed) or raises (no writer)
+                run.attempt(msg.username, kind.lower())
+                if kind == 'A':
+                    run.dead_wait.add(msg.username)
+                if run.offline_mode == 'raise':
+                    if kind == 'A':
+                        run.outcome(msg.username, 'sendfail')
+                    raise ConnectionWriteError('no server connection')
+                continue
+            run.dead_wait.discard(msg.username)
+            run.attempt(msg.username, kind)
+            ok = await run.park(msg.username, kind)
             if not ok:
                 raise ConnectionWriteError('scripted send failure')
 
@@ -277,10 +560,12 @@ class _StubNet:
         from aioslsk.protocol.messages import AddUser
         from aioslsk.exceptions import ConnectionReadError
         user = (fields or {}).get('username', '?')
+        if user == ME:
+            return AddUser.Response(user, exists=True, status=2, country_code='XX')
         t0 = self.run.now()
         try:
             async with asyncio.timeout(timeout):
-                ans = await self.run.park(user, 'W')
+                ans = await self.run.park(user, 'w' if user in self.run.dead_wait else 'W')
         except TimeoutError:
             self.run.outcome(user, 'timeout')
             if self.run.now() - t0 != DELAY['timeout'] * 1024:
@@ -295,15 +580,33 @@ class _StubNet:
             return AddUser.Response(user, exists=False)
         raise ConnectionReadError('scripted error while waiting for the response')
 
+    async def send_peer_messages(self, username, *messages, raise_on_error: bool = True):
+        from aioslsk.protocol.messages import PeerTransferQueue
+        if all(isinstance(m, PeerTransferQueue.Request) for m in messages):
+            return None                       # delivered: the download waits in the uploader's queue
+        await self.run.loop.create_future()   # anything else: the peer never answers (the attempt hangs until cancelled)
+
+    def queue_server_messages(self, *messages):
+        return []
+
 
 async def _run_case_async(loop, case: dict) -> dict:
-    r = _Run(loop)
+    r = _Run(loop, case)
+    if r.auto:
+        await r.um.start()
+        await r.mgr.start()
     for op in case['ops']:
         await r.do(op)
-    await r.drain()
+    if r.auto:
+        await r.quiesce()
+        tasks = await r.mgr.stop()
+        tasks += await r.um.stop()
+        await asyncio.gather(*tasks, return_exceptions=True)
+    else:
+        await r.drain()
     r.epochs.append(r.ep)
-    return {'lines': r.lines, 'obs': r.obs, 'epochs': r.epochs, 'checkpoints': r.checkpoints,
-            'problems': r.problems, 'loop_exceptions': loop.exceptions[:3]}
+    return {'lines': [] if r.auto else r.lines, 'obs': r.obs, 'epochs': r.epochs, 'checkpoints': r.checkpoints,
+            'problems': r.problems, 'loop_exceptions': loop.exceptions[:3], 'auto': r.auto, 'world': r.world}
 
 
 def _run_impl(case: dict) -> dict:
@@ -311,14 +614,42 @@ def _run_impl(case: dict) -> dict:
     return res
 
 
+def _empty(**kw) -> dict:
+    d = {'lines': [], 'obs': [], 'epochs': [], 'checkpoints': [], 'problems': [], 'loop_exceptions': [],
+         'auto': False, 'world': False}
+    d.update(kw)
+    return d
+
+
 def _eval_case(case: dict) -> dict:
     import logging
     logging.getLogger('aioslsk').setLevel(logging.CRITICAL)    # the library logs swallowed exceptions; keep stderr clean
+    del _GAPS[:]
     try:
-        return _run_impl(case)
-    except Exception as e:       # the real code raised / hung: an observation, not a harness crash
-        return {'lines': [], 'obs': [], 'epochs': [], 'checkpoints': [],
-                'problems': [('C15-impl-error', f'{type(e).__name__}: {e}')], 'loop_exceptions': []}
+        res = _run_impl(case)
+    except HarnessGap as e:
+        return _empty(harness_error=str(e))
+    except Exception as e:
+        if _GAPS:
+            return _empty(harness_error=_GAPS[0])
+        if _raised_in_harness(e) and not isinstance(e, TimeoutError):
+            return _empty(harness_error=f'{type(e).__name__}: {e} (raised in harness code: '
+                                        f'{traceback.extract_tb(e.__traceback__)[-1].filename}:'
+                                        f'{traceback.extract_tb(e.__traceback__)[-1].lineno})')
+        # the code under test raised / hung while being driven through its public entry points: the correspondence no
+        # longer checks (vlib.common demotes `…impl-error`: it is never reported as a failing input)
+        return _empty(problems=[('C15-impl-error', f'{type(e).__name__}: {e}')])
+    if _GAPS:
+        return _empty(harness_error=_GAPS[0])
+    return res
+
+
+def _infra_exit(results: list):
+    """a stand-in of this harness was not up to the code under test: nothing can be said about the property"""
+    bad = [r['harness_error'] for r in results if r.get('harness_error')]
+    if bad:
+        print(f'INFRA-ERROR: C15 harness cannot drive the code under test ({len(bad)} case(s)): {bad[0]}', file=sys.stderr)
+        raise SystemExit(2)
 
 
 # ------------------------------------------------------------------------------------------------
@@ -341,10 +672,84 @@ def _fold(calls: list) -> tuple[int, str]:
 def _collapse(attempts: list) -> str:
     out = ''
     for _t, k in attempts:
+        k = k.upper()
         if k == 'A' and out.endswith('A'):
             continue
         out += k
     return out
+
+
+def _bits(t: dict, session: bool) -> int:
+    return (F_REQ if t['req'] else 0) | (F_TR if t['unf'] else 0) | (F_FR if t['fr'] and session else 0)
+
+
+def _why(n: str, cp: dict) -> str:
+    t = cp['truth'][n]
+    return (f'explicit request standing: {t["req"]}, unfinished transfer exists: {t["unf"]}, in the friends list: '
+            f'{t["fr"]}, session: {cp["session"]}, sessions lost before: {cp["lost_sessions"]}')
+
+
+def _monitor_truth(case: dict, res: dict, flag):
+    """the reasons as they can be observed from outside (friends list in the settings, unfinished transfers, explicit
+    requests still standing) against what the library reports and what it asked the server for"""
+    epochs = res['epochs']
+    for cp in res['checkpoints']:
+        if cp['after_close'] or cp['epoch'] >= len(epochs):
+            continue
+        if not (cp['settled'] and (cp['quiesced'] or not res['auto'])):
+            continue
+        for n in NAMES:
+            u = cp['users'][n]
+            if u['gates']:
+                continue
+            where = f'user {n} after op #{cp["op"]}'
+            exp = _bits(cp['truth'][n], cp['session'])
+            if res['auto'] and (cp['app_bits'] & (F_TR | F_FR)):
+                continue            # the application named an owner's reason itself: the observable reasons do not say
+            if res['auto']:
+                if cp['session'] and cp['online']:
+                    if u['flags'] != exp:
+                        flag('C15-reasons-not-mirrored',
+                             f'{where}: quiescent in a session, get_tracking_flags={u["flags"]} but the observable '
+                             f'reasons are {exp} ({_why(n, cp)})', observed=u['flags'], required=exp)
+                        continue
+                    if (n in cp['watch']) != (exp != 0):
+                        flag('C15-wire-not-mirrored',
+                             f'{where}: quiescent in a session, reasons {exp}, but the server '
+                             f'{"was" if n in cp["watch"] else "was not"} asked to watch the user in this connection '
+                             f'({_why(n, cp)})', observed=cp['watch'], required=exp != 0)
+                        continue
+                    if (u['state'] == 'T') != (exp != 0):
+                        flag('C15-state-wrong',
+                             f'{where}: quiescent in a session, every attempt answered "exists", state {u["state"]}, '
+                             f'reasons {exp}', observed=u['state'], required='T' if exp else 'not T')
+                elif u['flags'] & ~exp:
+                    flag('C15-reasons-not-mirrored',
+                         f'{where}: no session, get_tracking_flags={u["flags"]} names a reason that does not exist '
+                         f'({_why(n, cp)})', observed=u['flags'], required=exp)
+            elif res['world'] and not (cp['app_bits'] & (F_TR | F_FR)):
+                # scripted world: TRANSFER after a cycle, FRIEND always (the application itself never names them here)
+                if cp['tr_clean'] and bool(u['flags'] & F_TR) != cp['truth'][n]['unf']:
+                    flag('C15-reasons-not-mirrored',
+                         f'{where}: quiescent after a management cycle, get_tracking_flags={u["flags"]} but '
+                         f'{_why(n, cp)}', observed=u['flags'], required=exp)
+                elif bool(u['flags'] & F_FR) != (cp['truth'][n]['fr'] and cp['session']):
+                    flag('C15-reasons-not-mirrored',
+                         f'{where}: quiescent, get_tracking_flags={u["flags"]} but {_why(n, cp)}',
+                         observed=u['flags'], required=exp)
+    if res['auto']:
+        # "and never otherwise": requests alternate, and there are no more of them than the observable reasons had edges
+        for ep in epochs:
+            for n in NAMES:
+                c = _collapse(ep['attempts'].get(n, []))
+                if c != ('AR' * len(c))[:len(c)]:
+                    flag('C15-frames-not-edges', f'user {n}: requests {c!r} do not alternate AddUser / RemoveUser',
+                         observed=c)
+                elif c.count('A') > ep['ups'][n] or c.count('R') > ep['downs'][n]:
+                    flag('C15-frames-not-edges',
+                         f'user {n}: requests {c!r}, but the observable reasons became non-empty only {ep["ups"][n]} '
+                         f'time(s) and empty {ep["downs"][n]} time(s) in this connection', observed=c,
+                         required={'max_add': ep['ups'][n], 'max_remove': ep['downs'][n]})
 
 
 def _monitor(case: dict, res: dict) -> list[Violation]:
@@ -358,6 +763,7 @@ def _monitor(case: dict, res: dict) -> list[Violation]:
     for ex in res.get('loop_exceptions', []):
         flag('C15-impl-error', f'exception escaped into the event loop: {ex}')
     epochs = res['epochs']
+    _monitor_truth(case, res, flag)
     for cp in res['checkpoints']:
         if cp['epoch'] >= len(epochs):
             continue
@@ -380,6 +786,8 @@ def _monitor(case: dict, res: dict) -> list[Violation]:
                          f'a tracking task talking to the network', observed=u,
                          required={'flags': 0, 'state': 'U', 'gates': ''})
                 continue
+            if res['auto']:
+                continue            # free-running owners: judged by `_monitor_truth` only
             # AddUser/RemoveUser exactly on the edges of R_u (retries repeat the AddUser of their edge)
             if not E.startswith(C):
                 flag('C15-frames-not-edges',
@@ -393,7 +801,8 @@ def _monitor(case: dict, res: dict) -> list[Violation]:
             if u['flags'] != R:
                 flag('C15-flags-not-fold-of-calls',
                      f'{where}: get_tracking_flags={u["flags"]} but the calls made so far leave reasons {R} '
-                     f'(a call was lost)', observed=u['flags'], required=R)
+                     f'(a call was lost)' + (f' [{_why(n, cp)}]' if res['world'] else ''),
+                     observed=u['flags'], required=R)
                 continue
             if C != E:
                 flag('C15-frames-not-edges',
@@ -424,6 +833,7 @@ def _monitor(case: dict, res: dict) -> list[Violation]:
                 if k in DELAY:
                     fails.append(t + DELAY[k] * 1024)
                     continue
+                k = k.upper()
                 if k == 'R':
                     fails = [d for d in fails if d <= t]
                 elif k == 'A' and prev == 'A':
@@ -469,6 +879,10 @@ def _gate(rng, u, m=None):
     so = 'ok' if rng.random() < 0.78 else 'fail'
     ro = rng.choices(['exists', 'notexists', 'error', 'silence'], weights=[5, 2, 1, 2])[0]
     return ['gate', u, so, ro, m if m is not None else rng.choices(['.', '!'], weights=[3, 2])[0]]
+
+
+def _good(u):
+    return ['gate', u, 'ok', 'exists', '.']
 
 
 def _gen_random(rng: random.Random) -> list:
@@ -570,53 +984,286 @@ def _tmpl_retry(rng):
     return ops
 
 
-def _tmpl_transfer_cycles(rng):
-    """the transfer manager's per-cycle calls: track(TRANSFER) for every unfinished user, back to back"""
-    ops = []
+TEMPLATES = [_tmpl_exit_window, _tmpl_noop_exit, _tmpl_close_in_cancel, _tmpl_retry]
+
+
+# -- the world: session, friends list, transfers (scripted: every step of an owner is an op of the schedule) --------
+
+class _Book:
+    """what the generator believes about the transfers it has created (validity of tfin / tque / trm)"""
+
+    def __init__(self):
+        self.x: list = []            # k -> [user, 'U' unfinished | 'F' finished | None removed]
+
+    def add(self, rng, u, m=None, kinds='qpu'):
+        self.x.append([u, 'U'])
+        return ['tadd', u, rng.choice(kinds), m if m is not None else _mod(rng)]
+
+    def pick(self, rng, st, u=None):
+        ks = [k for k, (uu, s) in enumerate(self.x) if s == st and (u is None or uu == u)]
+        return rng.choice(ks) if ks else None
+
+    def fin(self, rng, k, m=None):
+        self.x[k][1] = 'F'
+        return ['tfin', k, rng.choice(['abort', 'abort', 'fail']), m if m is not None else _mod(rng)]
+
+    def que(self, rng, k, m=None):
+        self.x[k][1] = 'U'
+        return ['tque', k, m if m is not None else _mod(rng)]
+
+    def rm(self, rng, k, m=None):
+        self.x[k][1] = None
+        return ['trm', k, m if m is not None else _mod(rng)]
+
+    def change(self, rng, u=None, m=None, kinds='qpu'):
+        """some change of the transfers (of user u)"""
+        y = rng.random()
+        k = None
+        if y < 0.30:
+            k = self.pick(rng, 'U', u)
+            if k is not None:
+                return self.fin(rng, k, m)
+        elif y < 0.45:
+            k = self.pick(rng, 'F', u)
+            if k is not None:
+                return self.que(rng, k, m)
+        elif y < 0.65:
+            k = self.pick(rng, rng.choice('UF'), u)
+            if k is not None:
+                return self.rm(rng, k, m)
+        return self.add(rng, rng.randrange(2) if u is None else u, m, kinds)
+
+
+def _world_setup(rng, book: _Book, auto: bool) -> tuple[list, dict]:
+    """a session with some standing reasons of all three kinds"""
+    extra: dict = {}
+    ops: list = []
+    if rng.random() < 0.5:
+        extra['friends0'] = rng.choice([[0], [1], [0, 1]])
+    for _ in range(rng.randint(1, 3)):
+        ops.append(book.add(rng, rng.randrange(2), None, 'qp' if auto and rng.random() < 0.7 else 'qpu'))
+    if rng.random() < 0.4:
+        ops.append(book.fin(rng, book.pick(rng, 'U')))
+    order = rng.random()
+    login = [['login']] + ([['friend', rng.randrange(2), 1]] if rng.random() < 0.4 else [])
+    if order < 0.5:
+        ops = login + ops
+    else:
+        ops = ops + login
+    if rng.random() < 0.4:
+        ops.append(['track', rng.randrange(2), 1, _mod(rng)])
+    return ops, extra
+
+
+def _tmpl_session_loss(rng):
+    """reasons of all kinds standing, the server connection is lost, a new session begins: every reason whose ground
+    still exists is asked for again (AddUser), the others are not; what ends later is withdrawn (RemoveUser)"""
+    book = _Book()
+    ops, extra = _world_setup(rng, book, False)
+    ops += [['cycle', _mod(rng)]]
+    ops += [_gate(rng, -1) if rng.random() < 0.3 else _good(-1) for _ in range(rng.randint(2, 5))]
+    if rng.random() < 0.3:
+        ops += [book.change(rng), ['cycle', _mod(rng)], _good(-1)]
+    ops.append(['close'])
+    for _ in range(rng.randint(0, 3)):          # while there is no session
+        y = rng.random()
+        ops.append(book.change(rng) if y < 0.4 else ['cycle', _mod(rng)] if y < 0.6 else
+                   ['friend', rng.randrange(2), rng.randrange(2)] if y < 0.75 else
+                   ['adv', rng.choice([1, 10, 11, 30])] if y < 0.9 else _gate(rng, -1))
+    tail = [['login'], ['cycle', _mod(rng)]]
+    if rng.random() < 0.25:
+        tail.reverse()
+    ops += tail
+    ops += [_good(-1) for _ in range(rng.randint(2, 4))]
+    for _ in range(rng.randint(0, 3)):          # later the grounds end
+        y = rng.random()
+        k = book.pick(rng, 'U')
+        if y < 0.5 and k is not None:
+            ops += [book.fin(rng, k) if rng.random() < 0.7 else book.rm(rng, k), ['cycle', _mod(rng)], _good(-1)]
+        elif y < 0.8:
+            ops += [['friend', rng.randrange(2), 0], _good(-1)]
+        else:
+            ops += [['untrack', rng.randrange(2), 1, _mod(rng)], _good(-1)]
+    return ops, extra
+
+
+def _tmpl_world_cycles(rng):
+    """management cycles interleaved with changes of the transfers, the worker busy or not"""
+    book = _Book()
+    ops: list = []
+    extra: dict = {}
     if rng.random() < 0.3:
         ops.append(['track', rng.randrange(2), rng.choice([1, 4, 5]), _mod(rng)])
-    unfinished = rng.choice([[0], [1], [0, 1], [0, 0, 1]])
-    finished: list = []
-    for _cycle in range(rng.randint(2, 4)):
-        ops.append(['tm', list(unfinished), list(finished), rng.choice(['+', '.', '.'])])
+    if rng.random() < 0.3:
+        ops.append(['login'])
+    for _cycle in range(rng.randint(2, 5)):
+        for _ in range(rng.randint(0, 2)):
+            ops.append(book.change(rng))
+        ops.append(['cycle', rng.choice(['+', '.', '.', '!'])])
         ops.append(_gate(rng, -1))
-        if unfinished and rng.random() < 0.5:      # a transfer completes
-            u = unfinished.pop(rng.randrange(len(unfinished)))
-            finished.append(u)
-        elif rng.random() < 0.2:                   # a new transfer for a user whose transfers were finished
-            unfinished.append(rng.randrange(2))
-    ops += [['tm', list(unfinished), list(finished), '.'], _gate(rng, -1), _gate(rng, -1)]
-    return ops
+        if rng.random() < 0.1:
+            ops.append(['close'])
+    ops += [['cycle', '.'], _gate(rng, -1), _gate(rng, -1)]
+    return ops, extra
 
 
-TEMPLATES = [_tmpl_exit_window, _tmpl_noop_exit, _tmpl_close_in_cancel, _tmpl_retry, _tmpl_transfer_cycles]
+def _tmpl_remove_last(rng):
+    """the last transfer of a user is removed (finished or not, before or after the cycle has seen it)"""
+    book = _Book()
+    u = rng.randrange(2)
+    ops = [book.add(rng, u)]
+    if rng.random() < 0.4:
+        ops.append(book.add(rng, rng.randrange(2)))
+    if rng.random() < 0.8:
+        ops += [['cycle', _mod(rng)], _good(-1), _good(-1)]
+    if rng.random() < 0.4:
+        ops.append(book.fin(rng, 0))
+        if rng.random() < 0.5:
+            ops += [['cycle', _mod(rng)], _good(-1)]
+    ops.append(book.rm(rng, 0))
+    ops += [_good(-1)]
+    if rng.random() < 0.6:
+        ops += [['cycle', _mod(rng)], _good(-1)]
+    if rng.random() < 0.4:
+        ops += [book.add(rng, u), ['cycle', _mod(rng)], _good(-1), _good(-1)]
+    return ops, {}
+
+
+def _gen_world_random(rng):
+    book = _Book()
+    ops: list = []
+    extra: dict = {}
+    if rng.random() < 0.3:
+        extra['friends0'] = rng.choice([[0], [1], [0, 1]])
+    session = False
+    for _ in range(rng.randint(4, 16)):
+        x = rng.random()
+        if x < 0.22:
+            ops.append(book.change(rng))
+        elif x < 0.40:
+            ops.append(['cycle', _mod(rng)])
+        elif x < 0.62:
+            ops.append(_gate(rng, -1))
+        elif x < 0.70:
+            ops.append(['friend', rng.randrange(2), rng.randrange(2)])
+        elif x < 0.78:
+            f = 1 if rng.random() < 0.8 else _flag(rng)
+            ops.append([rng.choice(['track', 'track', 'untrack']), rng.randrange(2), f, _mod(rng)])
+        elif x < 0.86:
+            ops.append(['adv', rng.choice(ADV)])
+        elif x < 0.94 or not session:
+            ops.append(['login'])
+            session = True
+        else:
+            ops.append(['close'])
+            session = False
+    return ops, extra
+
+
+WORLD_TEMPLATES = [_tmpl_session_loss, _tmpl_session_loss, _tmpl_world_cycles, _tmpl_remove_last, _gen_world_random]
+
+
+# -- free-running: the management tasks of both managers decide themselves when the owners look ---------------------
+
+def _tmpl_auto_loss(rng):
+    book = _Book()
+    ops, extra = _world_setup(rng, book, True)
+    y = rng.random()
+    ops += [['quiesce']] if y < 0.6 else [['adv', rng.choice([1, 2, 5])], _gate(rng, -1), _gate(rng, -1)] if y < 0.85 else []
+    for _loss in range(rng.choice([1, 1, 2])):
+        ops.append(['restart'] if rng.random() < 0.3 else ['close'])
+        for _ in range(rng.randint(0, 3)):
+            z = rng.random()
+            ops.append(book.change(rng, None, None, 'qp') if z < 0.4 else ['adv', rng.choice([1, 5, 15, 25, 40])] if z < 0.7
+                       else ['friend', rng.randrange(2), rng.randrange(2)] if z < 0.85
+                       else ['track', rng.randrange(2), 1, '.'])
+        ops.append(['login'])
+        ops += [['quiesce']] if rng.random() < 0.7 else [['adv', rng.choice([1, 3])], _gate(rng, -1)]
+    for _ in range(rng.randint(0, 3)):
+        z = rng.random()
+        k = book.pick(rng, 'U')
+        if z < 0.5 and k is not None:
+            ops.append(book.fin(rng, k) if rng.random() < 0.7 else book.rm(rng, k))
+        elif z < 0.7:
+            ops.append(['friend', rng.randrange(2), 0])
+        elif z < 0.85:
+            ops.append(['untrack', rng.randrange(2), 1, '.'])
+        else:
+            ops.append(book.change(rng, None, None, 'qp'))
+        if rng.random() < 0.5:
+            ops.append(['quiesce'])
+    return ops, extra
+
+
+def _gen_auto_random(rng):
+    book = _Book()
+    ops: list = []
+    extra: dict = {}
+    if rng.random() < 0.3:
+        extra['friends0'] = rng.choice([[0], [1], [0, 1]])
+    session = False
+    for _ in range(rng.randint(4, 14)):
+        x = rng.random()
+        if x < 0.25:
+            ops.append(book.change(rng, None, None, 'qp' if rng.random() < 0.7 else 'qpu'))
+        elif x < 0.45:
+            ops.append(_gate(rng, -1))
+        elif x < 0.53:
+            ops.append(['friend', rng.randrange(2), rng.randrange(2)])
+        elif x < 0.61:
+            ops.append([rng.choice(['track', 'track', 'untrack']), rng.randrange(2), 1, _mod(rng)])
+        elif x < 0.72:
+            ops.append(['adv', rng.choice([1, 2, 5, 10, 11, 20, 30, 600, 601])])
+        elif x < 0.82:
+            ops.append(['quiesce'])
+        elif x < 0.92 or not session:
+            ops.append(['login'])
+            session = True
+        else:
+            ops.append(['restart'] if rng.random() < 0.3 else ['close'])
+            session = False
+    return ops, extra
+
+
+AUTO_TEMPLATES = [_tmpl_auto_loss, _tmpl_auto_loss, _gen_auto_random]
 
 
 def _gen_case(rng: random.Random) -> dict:
     x = rng.random()
-    if x < 0.62:
+    if x < 0.48:
         return {'ops': _gen_random(rng), 'kind': 'random'}
-    t = rng.choice(TEMPLATES)
-    ops = t(rng)
-    if rng.random() < 0.4:       # random prefix: the scenario starts from a non-trivial history
-        pre = _gen_random(rng)[:rng.randint(1, 6)]
-        ops = pre + ops
-    ncall = 0
-    cut = len(ops)
-    for i, op in enumerate(ops):
-        if op[0] in ('track', 'untrack', 'tm'):
-            ncall += 1 if op[0] != 'tm' else len(set(op[1]) | set(op[2]))
-            if ncall > 8:
-                cut = i
-                break
-    return {'ops': ops[:cut], 'kind': t.__name__[6:]}
+    if x < 0.70:
+        t = rng.choice(TEMPLATES)
+        ops = t(rng)
+        if rng.random() < 0.4:       # random prefix: the scenario starts from a non-trivial history
+            pre = _gen_random(rng)[:rng.randint(1, 6)]
+            ops = pre + ops
+        ncall = 0
+        cut = len(ops)
+        for i, op in enumerate(ops):
+            if op[0] in ('track', 'untrack'):
+                ncall += 1
+                if ncall > 8:
+                    cut = i
+                    break
+        return {'ops': ops[:cut], 'kind': t.__name__[6:]}
+    if x < 0.92:
+        t = rng.choice(WORLD_TEMPLATES)
+        ops, extra = t(rng)
+        return dict({'ops': ops, 'kind': 'world-' + t.__name__.split('_', 2)[2]}, **extra)
+    t = rng.choice(AUTO_TEMPLATES)
+    ops, extra = t(rng)
+    return dict({'ops': ops, 'kind': 'auto-' + t.__name__.split('_', 2)[2], 'auto': True,
+                 'offline': rng.choice(['drop', 'drop', 'raise'])}, **extra)
 
 
 def _malformed(rng: random.Random) -> dict:
-    """ops the schedule cannot perform (nothing parked): the harness and the model both refuse them"""
+    """ops the schedule cannot perform (nothing parked, no such transfer): the harness and the model both refuse them"""
     ops = [['gate', rng.randrange(2), 'ok', 'exists', '.'], ['track', 0, 1, '.'], ['gate', 1, 'fail', 'error', '!'],
            ['gate', 0, 'ok', 'exists', '.'], ['gate', 0, 'ok', 'exists', '.'], ['gate', 0, 'fail', 'exists', '.'],
-           ['untrack', 1, 7, '.'], ['close'], ['close'], ['gate', 0, 'ok', 'exists', '.']]
+           ['untrack', 1, 7, '.'], ['close'], ['close'], ['gate', 0, 'ok', 'exists', '.'],
+           ['tfin', 0, 'abort', '.'], ['tadd', 1, 'p', '.'], ['tque', 0, '.'], ['trm', 3, '+'], ['tfin', 0, 'abort', '.'],
+           ['tfin', 0, 'fail', '!'], ['trm', 0, '.'], ['trm', 0, '.']]
     rng.shuffle(ops)
     return {'ops': ops, 'kind': 'malformed'}
 
@@ -629,23 +1276,43 @@ WITNESS_LOST = {'ops': [['track', 0, 1, '.'], ['gate', 0, 'ok', 'exists', '.'], 
 WITNESS_SWALLOW = {'ops': [['track', 0, 1, '.'], ['gate', 0, 'ok', 'exists', '.'], ['gate', 0, 'ok', 'notexists', '.'],
                            ['untrack', 0, 1, '+'], ['track', 0, 4, '!'], ['close']],
                    'kind': 'witness-swallowed-cancel'}
+# the last transfer of a user is removed: nobody withdrew the TRANSFER reason before fix 7282693
+WITNESS_REMOVE = {'ops': [['tadd', 0, 'q', '.'], ['cycle', '.'], ['gate', 0, 'ok', 'exists', '.'],
+                          ['gate', 0, 'ok', 'exists', '.'], ['trm', 0, '.'], ['gate', 0, 'ok', 'exists', '.'], ['cycle', '.']],
+                  'kind': 'witness-remove-last-transfer'}
+# session loss with an unfinished download and a friend: both are asked for again, scripted and free-running
+WITNESS_LOSS = {'ops': [['tadd', 0, 'q', '.'], ['login'], ['cycle', '.'], ['gate', 0, 'ok', 'exists', '.'],
+                        ['gate', 0, 'ok', 'exists', '.'], ['gate', 1, 'ok', 'exists', '.'], ['gate', 1, 'ok', 'exists', '.'],
+                        ['close'], ['login'], ['cycle', '.'], ['gate', 0, 'ok', 'exists', '.'],
+                        ['gate', 0, 'ok', 'exists', '.'], ['gate', 1, 'ok', 'exists', '.'], ['gate', 1, 'ok', 'exists', '.'],
+                        ['tfin', 0, 'abort', '.'], ['cycle', '.'], ['gate', 0, 'ok', 'exists', '.']],
+                'friends0': [1], 'kind': 'witness-session-loss'}
+WITNESS_LOSS_AUTO = {'ops': [['login'], ['tadd', 0, 'q', '.'], ['tadd', 0, 'p', '.'], ['quiesce'], ['close'],
+                             ['adv', 5], ['login'], ['quiesce'], ['tfin', 0, 'abort', '.'], ['tfin', 1, 'abort', '.'],
+                             ['quiesce'], ['restart'], ['login'], ['quiesce']],
+                     'friends0': [1], 'auto': True, 'offline': 'drop', 'kind': 'witness-session-loss-auto'}
 
 
 def _is_nontrivial(case: dict, res: dict) -> bool:
     """at least one AddUser attempt, and at least one call issued while that user's worker was busy (parked
-    in a network call) or had not run since the previous op (modifiers + / !)"""
-    if not any(k == 'A' for ep in res['epochs'] for at in ep['attempts'].values() for _, k in at):
+    in a network call) or had not run since the previous op (modifiers + / !) — or (world cases) an AddUser attempt
+    made after a session was lost"""
+    if not any(k in 'Aa' for ep in res['epochs'] for at in ep['attempts'].values() for _, k in at):
         return False
+    if res.get('world') and any(cp['lost_sessions'] and cp['nattempts'][n] for cp in res['checkpoints']
+                                if not cp['after_close'] for n in NAMES):
+        return True
     prev_mod = '.'
     lines = res['lines']
     cps = {cp['op']: cp for cp in res['checkpoints']}
     for i, ln in enumerate(lines):
         p = ln.split()
-        if p[0] in ('track', 'untrack'):
+        if p[0] in ('track', 'untrack', 'cycle'):
             if prev_mod in '+!':
                 return True
             before = cps.get(i - 1)
-            if before and before['users'][NAMES[int(p[1])]]['gates']:
+            if before and any(before['users'][n]['gates'] for n in
+                              ([NAMES[int(p[1])]] if p[0] != 'cycle' else NAMES)):
                 return True
         prev_mod = p[-1] if p[-1] in ('.', '+', '!') else '.'
     return False
@@ -655,38 +1322,49 @@ class C15(Property):
     id = 'C15'
     props_module = 'AioslskVerif.Props.C15'
     driver_module = 'AioslskVerif.Driver.C15'
-    rule = ('schedules derived from VERIF_SEED: <= 8 track/untrack calls with any non-empty flag set for 1..2 users, '
-            'each issued settled / one loop iteration after / back-to-back with the previous op, interleaved with '
+    rule = ('schedules derived from VERIF_SEED. (1) 70 %: <= 8 track/untrack calls with any non-empty flag set for 1..2 '
+            'users, each issued settled / one loop iteration after / back-to-back with the previous op, interleaved with '
             'releases of the worker\'s pending network call (send ok|failure, exists|not-exists|error|silence), '
-            'virtual-time advances around the 10 s / 600 s delays and server closes; 38 % from scenario templates '
-            '(exit window, no-op exit, close during retry cancellation, retries, cycles of the real '
-            'TransferManager.manage_user_tracking) with random '
-            'prefixes; a case is non-trivial when an AddUser attempt was made and a call was issued while that '
-            'user\'s worker was busy or had not run since the previous op; distinct = distinct op list')
+            'virtual-time advances around the 10 s / 600 s delays and server closes; a third of them from scenario '
+            'templates (exit window, no-op exit, close during retry cancellation, retries) with random prefixes. '
+            '(2) 22 % scripted world: the same plus the owners of the reasons as ops of the schedule — logins, friends-list '
+            'changes, transfers of the REAL TransferManager added / aborted / failed / queued again / removed through its '
+            'public methods, its manage_user_tracking() cycles, server closes with session loss and new sessions '
+            '(templates: session loss, cycles between transfer changes, removal of the last transfer, random). '
+            '(3) 8 % free-running (monitor only): the management tasks of both real managers decide when the owners look, '
+            'sends without a server connection are dropped / refused, connection losses and stop()/start() in the middle, '
+            'judged at quiescent points against the observable reasons (friends list, unfinished transfers, standing '
+            'explicit requests). Non-trivial: an AddUser attempt was made and a call (or cycle) was issued while that '
+            'user\'s worker was busy or had not run since the previous op, or an AddUser attempt was made after a session '
+            'loss; distinct = distinct op list')
     assumptions = [
         'calls carry a non-empty TrackingFlag (TrackingFlag(0) is the value the retry task itself uses; the Lean '
         'model transcribes it faithfully, the generator never issues it)',
         'no call is issued while the CLOSED event is being dispatched (harness and model treat the close as one step)',
-        'Network is replaced by a stub with the two coroutines the tracking code awaits; event listeners do not '
-        'suspend; the suspension points of the worker are queue.get, the two network calls and the retry sleep '
-        '(after fix 2 the retry task is cancelled without being awaited)',
+        'Network is replaced by a stub with the two coroutines the tracking code awaits (and, for the transfer manager, a '
+        'peer side on which downloads are queued remotely at once and nothing else is answered); event listeners do not '
+        'suspend; the suspension points of the worker are queue.get, the two network calls and the retry sleep',
         'every op moves the clock by 1/1024 s, so two timers of one user never fall due at the same instant',
+        'a change of the friends list is noticed (user management job, 1 s polling) before the next op: its latency is '
+        'not explored; in the world theorems the application itself only names REQUESTED (WOp.appOk) and the own user '
+        'name is not one of the tracked users',
+        'SessionDestroyedEvent follows the CLOSED event as in SoulSeekClient (the client object itself is C16\'s subject)',
     ]
     modelled = ('user/manager.py UserTrackingManager: track_user/untrack_user, _tracking_task, _request_tracking, '
                 '_request_untracking, _set_tracking_state, _request_retry, _get_tracked_user_object, '
-                '_on_tracking_task_done, _on_state_changed/stop (atomic), get_tracking_state/flags — with the two '
-                'proposed fixes; exercised only: UserManager wrappers, EventBus, TrackingFlag/TrackingState enums; '
-                'TransferManager.manage_user_tracking (real method run on a stand-in holding real Transfer objects; '
-                'its calls are checked against "track(TRANSFER) per unfinished user, untrack(TRANSFER) per '
-                'finished-only user")')
+                '_on_tracking_task_done, _on_state_changed/stop (atomic), get_tracking_state/flags; the owners of the reasons '
+                '(World): UserManager._on_session_initialized / _on_friend_list_changed, '
+                'TransferManager.manage_user_tracking and the reason withdrawal of remove(), session loss. Exercised only: '
+                'UserManager wrappers and management job, EventBus, enums, TransferManager.__init__/add/download/abort/queue/'
+                'remove/start/stop, its management task and request_management_cycle wiring (free-running cases, monitor only)')
 
     def regenerate(self):
         return [track_constants.generate(common.REPO, common.LEAN)]
 
     def _cases(self, seed, tier, widen):
         rng = random.Random(f'C15-{seed}')
-        n = (6000 if tier == 'quick' else 360000) * widen
-        cases = [WITNESS_LOST, WITNESS_SWALLOW]
+        n = (6000 if tier == 'quick' else 300000) * widen
+        cases = [WITNESS_LOST, WITNESS_SWALLOW, WITNESS_REMOVE, WITNESS_LOSS, WITNESS_LOSS_AUTO]
         cdir = common.CORPUS / 'C15'
         if cdir.is_dir():
             for p in sorted(cdir.glob('*.json')):
@@ -703,6 +1381,7 @@ class C15(Property):
         res = KResult()
         cases = self._cases(seed, tier, widen)
         impl = common.parallel_map(_eval_case, cases)
+        _infra_exit(impl)
         model = None
         if model_ok:
             lines, spans = [], []
@@ -725,8 +1404,12 @@ class C15(Property):
                 if p[-1] in ('+', '!'):
                     res.count('mod:' + p[-1])
             res.count('refused', sum(1 for o in r['obs'] if o.startswith('refused')))
+            if r.get('auto'):
+                res.count('auto:quiescent-comparisons', sum(1 for cp in r['checkpoints'] if cp['quiesced']))
+                res.count('auto:in-session-after-loss', sum(1 for cp in r['checkpoints']
+                                                            if cp['quiesced'] and cp['session'] and cp['lost_sessions']))
             if _is_nontrivial(c, r):
-                res.nontrivial_keys.add(common.sha(c['ops']))
+                res.nontrivial_keys.add(common.sha([c['ops'], c.get('friends0'), c.get('auto'), c.get('offline')]))
             if model is not None and r['lines']:
                 res.traces_validated += 1
                 if model[i] != r['obs']:
@@ -739,10 +1422,15 @@ class C15(Property):
             res.violations += _monitor(c, r)
             if len(res.samples) < 3 and 4 <= len(r['lines']) <= 9 and c.get('kind') not in ('malformed',):
                 res.samples.append({'case': c, 'executed': r['lines'], 'impl': r['obs']})
+            elif 3 <= len(res.samples) < 5 and c.get('kind', '').startswith(('world-session', 'auto-auto_loss')) \
+                    and len(c['ops']) <= 14 and not any(s['case'].get('kind') == c.get('kind') for s in res.samples):
+                res.samples.append({'case': c, 'executed': r['lines'], 'impl': r['obs'][:20]})
         return res
 
     def replay(self, case):
-        return _monitor(case, _eval_case(case))
+        r = _eval_case(case)
+        _infra_exit([r])
+        return _monitor(case, r)
 
     def known_witnesses(self):
         return []
